@@ -3,7 +3,8 @@
 //
 // Every repo-owned decoder is run on every valid sample shipped in the
 // repository, on truncations, single bit flips and length-field mutations of
-// those samples, and on random strings.  The calls are executed in a child
+// those samples (including every count/size field at the wrap-around points of
+// 8/16/32/64-bit products and casts, wrap.go), and on random strings.  The calls are executed in a child
 // process (worker.go) with RLIMIT_AS = 4 GiB and a 2 s deadline; the parent
 // records the outcome class {Ok(summary), Err, Panic, Crash(out of memory),
 // Timeout} and the bytes allocated during the call.
